@@ -19,14 +19,14 @@ m = {
  "setup_cmd": "/verif/setup.sh",
  "hooks": {
    "guard": "penguin_rs_verif",
-   "enable": "RUSTFLAGS='--cfg penguin_rs_verif --cfg tokio_unstable' (syssim, via /verif/sim/.cargo/config.toml) ; RUSTFLAGS='--cfg loom --cfg penguin_rs_verif' (loom models); muxsim needs no hooks",
+   "enable": "RUSTFLAGS='--cfg penguin_rs_verif --cfg tokio_unstable' (syssim, via /verif/sim/.cargo/config.toml) ; RUSTFLAGS='--cfg loom --cfg penguin_rs_verif' (loom models; the shuttle part builds the same models with `loom` resolved to /verif/shuttle/loomshim); muxsim needs no hooks",
    "baseline_off_cmd": "cd /repo && cargo test --workspace --no-fail-fast --offline",
    "source_commits": hooks_commits,
    "add_only": True,
  },
  "engines": [
    {"name":"muxsim","path":"/verif/sim/muxsim","serves_properties":[p for p,c in CLAIMED.items() if c['engine']=='muxsim'],"kind_free_text":"seeded executor nested in a paused tokio current_thread runtime; real penguin-mux endpoints over an in-memory WebSocket link with wire monitor and reference codec; scripted raw peer; scripted local I/O"},
-   {"name":"loomsim","path":"/verif/loom","serves_properties":[p for p,c in CLAIMED.items() if c['engine']=='loomsim'],"kind_free_text":"loom-controlled threads over the crate's own sync shim (in-crate test module behind cfg(penguin_rs_verif))"},
+   {"name":"loomsim","path":"/verif/loom","serves_properties":[p for p,c in CLAIMED.items() if c['engine']=='loomsim'],"kind_free_text":"loom-controlled threads over the crate's own sync shim (in-crate test module behind cfg(penguin_rs_verif)); the same models also run under shuttle's seeded random scheduler through /verif/shuttle (loom's API over shuttle, shadow manifest; also the third part of C07 and C08)"},
    {"name":"syssim","path":"/verif/sim/syssim","serves_properties":[p for p,c in CLAIMED.items() if c['engine']=='syssim'],"kind_free_text":"real penguin client + server (hyper, tungstenite, forwarders) over penguin-simnet, a simulated tokio::net, under the paused clock"},
  ],
  "checks": [],
